@@ -252,6 +252,15 @@ class TlcResult:
         return "\n".join(l for l in self.out.splitlines() if "Error" in l or "error" in l)[:4000]
 
 
+def _die_with_parent():
+    try:
+        import ctypes
+        import signal
+        ctypes.CDLL("libc.so.6").prctl(1, signal.SIGKILL)      # PR_SET_PDEATHSIG
+    except Exception:
+        pass
+
+
 def tla_modules():
     mods = {}
     for root, _, fs in os.walk(SPEC):
@@ -276,7 +285,7 @@ def run_tlc(tag, module, cfg_text, files=None, workers=1, args=(), timeout=3600,
             with open(os.path.join(d, name), "w") as f:
                 f.write(content if isinstance(content, str) else json.dumps(content))
         cp = TLAJAR + ((":" + CLASSES) if fast and os.path.isdir(CLASSES) else "")
-        cmd = ["timeout", str(int(timeout)), "java", "-XX:+UseParallelGC", "-Xmx" + heap, "-Xss64m",
+        cmd = ["java", "-XX:+UseParallelGC", "-XX:ParallelGCThreads=2", "-Xmx" + heap, "-Xss64m",
                "-cp", cp, "tlc2.TLC", "-workers", str(workers), "-metadir", os.path.join(d, "states"),
                "-noGenerateSpecTE", "-config", module + ".cfg"]
         if simulate:
@@ -285,7 +294,22 @@ def run_tlc(tag, module, cfg_text, files=None, workers=1, args=(), timeout=3600,
         env = dict(os.environ)
         env.update(env_extra or {})
         t0 = time.time()
-        r = subprocess.run(cmd, cwd=d, capture_output=True, text=True, env=env)
+        # the JVM dies with this process (no orphaned model checkers) and is killed at the time limit
+        proc = subprocess.Popen(cmd, cwd=d, stdout=subprocess.PIPE, stderr=subprocess.STDOUT, text=True, env=env,
+                                preexec_fn=_die_with_parent)
+        try:
+            out, _ = proc.communicate(timeout=timeout)
+            rc = proc.returncode
+        except subprocess.TimeoutExpired:
+            proc.kill()
+            out, _ = proc.communicate()
+            out = (out or "") + "\nError: TLC killed after the time limit of %d s\n" % timeout
+            rc = 124
+
+        class _R:
+            pass
+        r = _R()
+        r.stdout, r.stderr, r.returncode = out, "", rc
         res = TlcResult(r.stdout + r.stderr, r.returncode, time.time() - t0)
         res.dir = d
         return res
